@@ -217,13 +217,11 @@ Proof.
   - destruct (v_bg s) eqn:B; try discriminate. destruct (v_lctx s); inv H. constructor; simpl; auto; vfin Icl Igot.
   - destruct (v_bg s) eqn:B; inv H. constructor; simpl; auto; vfin Icl Igot.
   - inv H. constructor; simpl; auto.
-  - destruct (v_pc s t) eqn:P; inv H. constructor; simpl; auto; vfin Icl Igot.
-    intros x Hx. upd_cases x t; [|eauto]. destruct (v_armed s) eqn:A; [discriminate|auto].
+  - destruct (v_pc s t) eqn:P; inv H. destruct (v_armed s) eqn:A; constructor; simpl; auto; vfin Icl Igot.
   - destruct (v_pc s t) eqn:P; try discriminate. destruct (v_bg s) eqn:B; inv H. constructor; simpl; auto; vfin Icl Igot.
   - destruct (v_pc s t) eqn:P; try discriminate. destruct (v_closed s) eqn:C; inv H. constructor; simpl; auto; vfin Icl Igot.
   - destruct (v_pc s t) eqn:P; try discriminate. destruct (v_cancelled s t) eqn:C; inv H. constructor; simpl; auto; vfin Icl Igot.
   - inv H. constructor; simpl; auto; vfin Icl Igot.
-    intros x Hx. upd_cases x t; [reflexivity|eauto].
 Qed.
 
 Lemma vinv_reach R s : vreach false R s -> vinv R s.
@@ -259,9 +257,9 @@ Lemma launch_later_wait_blocks R s t : vreach false R s -> v_finished s = false 
 Proof.
   intros Hr F C P. apply vinv_reach in Hr. destruct Hr as [Icl Iarm Igot Iclo Inil Ictx].
   assert (A : v_armed s = true).
-  { destruct (v_armed s) eqn:A; [reflexivity|]. apply Iarm in A. apply Icl in A. unfold v_finished in F. rewrite A in F. discriminate. }
+  { destruct (v_armed s) eqn:A; [reflexivity|]. pose proof (Iarm eq_refl) as X. apply Icl in X. unfold v_finished in F. rewrite X in F. discriminate. }
   assert (Cl : v_closed s = false).
-  { destruct (v_closed s) eqn:X; [|reflexivity]. apply Icl in X. unfold v_finished in F. rewrite X in F. discriminate. }
+  { destruct (v_closed s) eqn:X; [|reflexivity]. pose proof (proj1 Icl eq_refl) as Y. unfold v_finished in F. rewrite Y in F. discriminate. }
   eexists. simpl. rewrite P, A. split; [reflexivity|]. simpl. rewrite upd_same. split; [reflexivity|].
   unfold v_finished in F. rewrite Cl, C. destruct (v_bg s); try discriminate; repeat split.
 Qed.
